@@ -188,17 +188,8 @@ def _analyze(template: Template, *, include_partials: bool) -> TemplateAnalysis:
             for name, span in _extract_filters(expr, template_name):
                 filters[name].append(span)
 
-        # Update the template scope from node.template_scope()
-        for ident in node.template_scope():
-            scope.add(ident)
-            locals.add(
-                Variable(
-                    segments=[ident],
-                    span=Span(template_name, ident.token.start, ident.token.stop),
-                )
-            )
-
         if partial := node.partial_scope():
+            _update_template_scope(node, template_name, scope, locals)
             partial_name = str(partial.name.evaluate(static_context))
 
             if partial_name in seen:
@@ -224,6 +215,9 @@ def _analyze(template: Template, *, include_partials: bool) -> TemplateAnalysis:
             ):
                 _visit(child, template_name, scope)
             scope.pop()
+            # A tag binds its names when it has rendered its block: inside
+            # `{% capture x %}...{% endcapture %}`, `x` is not assigned yet.
+            _update_template_scope(node, template_name, scope, locals)
 
     for node in template.nodes:
         _visit(node, root_name, root_scope)
@@ -283,17 +277,8 @@ async def _analyze_async(
             for name, span in _extract_filters(expr, template_name):
                 filters[name].append(span)
 
-        # Update the template scope from node.template_scope()
-        for ident in node.template_scope():
-            scope.add(ident)
-            locals.add(
-                Variable(
-                    segments=[ident],
-                    span=Span(template_name, ident.token.start, ident.token.stop),
-                )
-            )
-
         if partial := node.partial_scope():
+            _update_template_scope(node, template_name, scope, locals)
             partial_name = str(partial.name.evaluate(static_context))
 
             if partial_name in seen:
@@ -319,6 +304,9 @@ async def _analyze_async(
             ):
                 await _visit(child, template_name, scope)
             scope.pop()
+            # A tag binds its names when it has rendered its block: inside
+            # `{% capture x %}...{% endcapture %}`, `x` is not assigned yet.
+            _update_template_scope(node, template_name, scope, locals)
 
     for node in template.nodes:
         await _visit(node, root_name, root_scope)
@@ -330,6 +318,23 @@ async def _analyze_async(
         filters=dict(filters),
         tags=dict(tags),
     )
+
+
+def _update_template_scope(
+    node: Node,
+    template_name: str,
+    scope: _StaticScope,
+    locals: _VariableMap,  # noqa: A002
+) -> None:
+    """Add the names from node.template_scope() to the template scope."""
+    for ident in node.template_scope():
+        scope.add(ident)
+        locals.add(
+            Variable(
+                segments=[ident],
+                span=Span(template_name, ident.token.start, ident.token.stop),
+            )
+        )
 
 
 def _extract_filters(
